@@ -355,7 +355,8 @@ func runLocalSync(t *testing.T, tp *simrt.Tape, prop string) hx.Result {
 		os.MkdirAll(r, 0o755)
 		w.roots = append(w.roots, r)
 	}
-	rels := []string{"alpha", "group/beta", "gamma.git", "group/delta", "alpha.git", "x/y/zeta"}
+	// some names order differently than their (URL-escaped, suffixed) shard file names
+	rels := []string{"alpha", "group/beta", "gamma.git", "group/delta", "alpha.git", "x/y/zeta", "group/beta-old", "alpha.web"}
 	free := func(root int, rel string) bool {
 		for _, r := range w.repos {
 			if r.root == root && (r.rel == rel || r.rel == "." || strings.HasPrefix(rel, r.rel+"/") || strings.HasPrefix(r.rel, rel+"/")) {
@@ -830,6 +831,12 @@ func runLocalSync(t *testing.T, tp *simrt.Tape, prop string) hx.Result {
 				res.HarnessErr = "foreign shard: " + err.Error()
 			}
 			history = append(history, fmt.Sprintf("foreign shard %q without source appears", name))
+			if tp.Gen(2) == 0 {
+				// what a killed index run leaves behind
+				os.WriteFile(filepath.Join(w.indexDir, name+"_v16.00000.zoekt.424242.tmp"), []byte("partial shard"), 0o644)
+				os.WriteFile(filepath.Join(w.indexDir, name+"_v16.00000.zoekt.meta.434343.tmp"), []byte("{"), 0o644)
+				history = append(history, "temp files of a killed index run appear")
+			}
 		case k <= 8 || k == 14:
 			if tp.Gen(5) == 0 {
 				var cands []string
